@@ -614,6 +614,11 @@ class NpModule(object):
     def _mk1(self, op):
         def f(I, fr, args, kwargs):
             out = kwargs.get('out', args[1] if len(args) > 1 else None)
+            if isinstance(args[0], ip.Obj) and hasattr(args[0], 'content'):
+                # abstract tensor-like element: np.<ufunc>(element) acts like element.ufuncs.<ufunc>() (C17)
+                uf = I._getattr(args[0], 'ufuncs', fr)
+                name = {'abs': 'absolute', 'neg': 'negative', 'not': 'logical_not'}.get(op, op)
+                return I.call(uf.pv_getattr(I, fr, name), [], {} if out is None else {'out': out}, fr)
             a = unwrap(I, fr, args[0])
             if not isinstance(a, PArr):
                 if out is not None:
